@@ -542,6 +542,52 @@ def check_r3(rep, objs):
         rep.broke("R3: only %d normalising constructors found (SO2(qz,qw), SO2(complex), SO3(quaternion) confirmed by hand)" % found)
 
 
+def check_r4(rep):
+    """unit norm of exp on both sides of the switch, in the truncated-series domain: |A(x)^2 x^2 + B(x)^2 - 1| at theta*"""
+    import math
+    import jet
+    import switches
+    rep.rule("R4", "SO3Impl::exp returns a unit quaternion: A^2*theta^2 + B^2 = 1 to 1e-14 on both branches at the switch", minimum=2)
+    dumps = fe.ast_dumps(switches.FILTERS)
+    objs = []
+    for f_ in switches.FILTERS:
+        objs += dumps[f_]
+    idx = A.index(objs)
+    switches.W_EPS2["value"] = switches.find_eps2(idx)
+    W = switches.load_weights()
+    sites = [s_ for s_ in switches.find_sites(idx) if s_.decl.qname == "SO3Impl::exp"]
+    if len(sites) != 1:
+        rep.broke("R4: switch of SO3Impl::exp not found")
+        return
+    st = sites[0]
+    try:
+        r = switches.analyse_site(st, W)
+    except jet.Unsupported as ex:
+        rep.broke("R4: cannot abstract SO3Impl::exp: %s" % ex)
+        return
+    # the two returned values must be used as (A*a.x, A*a.y, A*a.z, B)
+    body = A.ntext(A.body(st.decl.node))
+    if "g_out<<A*a_in.x(),A*a_in.y(),A*a_in.z(),B;" not in body or len(r["small"]) != 2:
+        rep.broke("R4: SO3Impl::exp no longer stores (A*a, B); re-derive the norm rule")
+        return
+    theta = math.sqrt(r["threshold"])
+    x2 = jet.Series.var(2)
+    for name, vals in (("series", r["small"]), ("closed-form", r["large"])):
+        Aq, Bq = vals
+        dev = Aq * Aq * x2 + Bq * Bq - jet.Series.const(1)
+        if dev.c and dev.val() < 0:
+            worst = float("inf")
+        else:
+            worst = dev.sup_abs(theta)
+        ok = worst <= 1e-14
+        rep.instance("R4", "SO3Impl::exp", name, ok=ok, sample={"file": fe.rel(st.file), "line": st.line, "norm_deviation": dev.short(3), "at_theta_star": worst})
+        if not ok:
+            rep.violation(Finding("R4", "SO3Impl::exp", name,
+                                  "the %s branch returns a quaternion whose squared norm deviates from 1 by %s, i.e. up to %.2g for rotation angles below %.0e "
+                                  "(unit-norm invariant allows 1e-14 per operation); the deviation accumulates over += / rplus steps"
+                                  % (name, dev.short(3), worst, theta), st.file, st.line))
+
+
 def check(rep, tier, replay=None):
     rep.explanations.append(
         "C15 (sign/normalisation clauses only): the canonical hemisphere q_w >= 0 is shown to be an inductive invariant by reading "
@@ -554,3 +600,4 @@ def check(rep, tier, replay=None):
     rep.unit("umbrella TU filtered Impl / SO2,SO3 classes")
     check_r2(rep, A.index(d["Impl"]))
     check_r3(rep, d["smooth::SO2"] + d["SO3"])
+    check_r4(rep)
